@@ -582,6 +582,10 @@ func (s *Store) gcIndex(ctx context.Context) error {
 			var err error
 			subject, err = manifestutil.Subject(ctx, s.storage, *subject)
 			if err != nil {
+				if errors.Is(err, errdef.ErrNotFound) {
+					// the subject chain ends at a manifest that is not in the store
+					break
+				}
 				return err
 			}
 			if subject == nil {
